@@ -110,7 +110,13 @@ class Gen:
     def atom(self, ctx):
         r = self.r
         if ctx['atoms'] and r.random() < 0.75:
-            return r.choice(ctx['atoms'])
+            a, t = r.choice(ctx['atoms'])
+            if T[t][1] == 64:
+                # a bit-field wider than int is read through a cast to its declared type: gcc gives `unsigned long long f:40`
+                # a 40-bit type of its own in ?: arms, unary ~ + and comparisons (`c ? -7 : p->f` is 2^40-7), clang and c2m the
+                # declared type (DR 315: implementation-defined); the cast is the identity under either reading
+                return self.cast(t, a), t
+            return a, t
         return self.literal()
 
     def c(self, t):
